@@ -210,6 +210,20 @@ func Open(path string) (File, error) {
 	return os.Open(path)
 }
 
+// ReadFile replaces os.ReadFile in the rewritten main.go: the simulated file system's open and read
+// faults apply to it as they do to Open followed by reads.
+func ReadFile(path string) ([]byte, error) {
+	if f := OpenFn; f != nil {
+		fl, err := f(path)
+		if err != nil {
+			return nil, err
+		}
+		defer fl.Close()
+		return io.ReadAll(fl)
+	}
+	return os.ReadFile(path)
+}
+
 // Args replaces os.Args in the rewritten main.go.
 func Args() []string {
 	if f := ArgsFn; f != nil {
@@ -530,4 +544,11 @@ func SignalNotifyContext(parent context.Context, sig ...os.Signal) (context.Cont
 		return signal.NotifyContext(parent, sig...)
 	}
 	return context.WithCancel(parent)
+}
+
+func SignalIgnored(sig os.Signal) bool {
+	if !simulated() {
+		return signal.Ignored(sig)
+	}
+	return false
 }
